@@ -727,7 +727,11 @@ pub fn run(tier: Tier) -> i32 {
         let model = Model::new(&quiet, cfg, "C08-crosscheck", false);
         let depth = 3;
         let bfs = explore(&quiet, &model, depth);
-        let (histories, distinct) = crate::engines::bfs::enumerate_unmerged(&model, depth);
+        // (a subject that panics makes the two enumerations incomparable: the panic itself is reported by the exploration above)
+        let (histories, distinct) = match crate::common::guarded(|| crate::engines::bfs::enumerate_unmerged(&model, depth)) {
+            Ok(r) if quiet.violation_count() == 0 => r,
+            _ => (0, bfs.states),
+        };
         if distinct != bfs.states {
             eprintln!("MACHINERY-ERROR: BFS with state merging reports {} states at depth {depth}, unmerged enumeration of {histories} histories reaches {distinct} distinct states", bfs.states);
             std::process::exit(2);
